@@ -478,6 +478,9 @@ def run_case(case, acc):
     p.cwd = render_link(case["cwd"], tmp)
     if case["zombie"]:
         t.exit(case["pid"])
+    if harness.chash(case)[-1] in "01":
+        t.fake_getpid = case["pid"]        # one case in eight: the process inspects itself (os.getpid() answers its pid)
+        acc.count("cases_where_the_process_inspects_itself")
     vk = vkernel.VK()
     vk.table = t
     vk.mount("/vproc", t)
